@@ -94,7 +94,7 @@ def export_behaviours(ctx, params):
     return res, r.distinct
 
 
-def fixed_scripts():
+def fixed_scripts(quick=True):
     s = []
     # soft reset followed by a request that does not fit the next retained block but fits a later one
     s.append({"c": "arena", "arena": [1024, 0], "ops": [["rep", 60, "oneshot", 512], ["reset", "soft"], ["oneshot", 5000], ["reset", "hard"]]})
@@ -113,6 +113,13 @@ def fixed_scripts():
     # an arena that only ever handed out dynamic (> 2048 byte) blocks, then hard reset / destruction
     s.append({"c": "arena", "arena": [4096, 0], "ops": [["reusable", 4303], ["reset", "hard"], ["reusable", 3000], ["reusable", 100], ["reset", "hard"]]})
     s.append({"c": "arena", "arena": [1024, 0], "ops": [["rzeroed", 2049], ["reusable", 9000], ["free", 1], ["reset", "soft"], ["reusable", 2100]]})
+    # hash table arithmetic: natural growth up to the 15859-bucket row with driver-chosen hash codes (multiples of every
+    # bucket count and their neighbours, inserted / looked up / removed at every level), and every row of the prime
+    # table whose bucket array fits the tier's memory budget entered through _rehash(row); hash = key and hash = 2^32-1-key
+    big, rows = (15859, 2200000) if quick else (60869, 34000000)
+    s.append({"c": "hash", "hmode": 0, "arena": [4096, 0], "ops": [["grow", 1, big]]})
+    s.append({"c": "hash", "hmode": 0, "arena": [4096, 0], "ops": [["rows", 1, 0, 128, rows]]})
+    s.append({"c": "hash", "hmode": 5, "arena": [1024, 0], "ops": [["grow", 1, 1061], ["rows", 1, 0, 128, rows]]})
     # printf-style formatting whose output fills the remaining capacity exactly
     k = [107] * 300
     s.append({"c": "string", "ops": [["chars", 1, 0, [], 97, 300, 0], ["fmts", 1, 0, [], 0, 1, 0]]})          # append, remaining >= 128
@@ -167,10 +174,52 @@ def classify(comp, rej):
     return None, what
 
 
+def hashmod_leg(ctx, bdir, max_real, tag="hashmod"):
+    """adt hashmod logs (prime, rcp, shift) of every row and what _calc_mod really returned for adversarial hashes;
+    HashMod.tla judges each observation (round-up reciprocal, exactness bound, got = hash mod prime < prime)."""
+    obs = ctx.path(tag + "_obs.ndjson")
+    rc, _, err = vlib.run_harness(ctx, bdir, "adt", ["hashmod", obs, max_real], timeout=900, env={"VERIF_SEED": ctx.seed})
+    if rc != 0:
+        raise Broken(f"harness hashmod exit {rc}: {err[-1500:]}")
+    recs = vlib.read_ndjson(obs)
+    r = vlib.run_tlc(ctx, os.path.join(SPEC, "HashMod.tla"), os.path.join(SPEC, "HashMod.cfg"), workers=8, timeout=1500, heap="4g",
+                     tag=tag, env={"OBS": obs, "JAVA_TOOL_OPTIONS": "-Xss64m"})
+    ctx.states += r.distinct
+    ctx.transitions += r.generated
+    nrows = sum(1 for x in recs if x["k"] == "row")
+    for x in recs:
+        ctx.distinct.add(("hashmod", x["row"], x["k"], tuple(x.get("h", ()))))
+    ctx.extra["hashmod_observations"] = len(recs)
+    ctx.extra["hashmod_rows"] = nrows
+    if r.kind == "ok":
+        ctx.log(f"hash arithmetic: {nrows} table rows, {len(recs) - nrows} _calc_mod observations accepted")
+        return len(recs)
+    if r.kind != "violation":
+        raise Broken(f"HashMod: kind={r.kind} rc={r.rc}\n" + "\n".join(r.out.splitlines()[-25:]))
+    st = vlib.parse_state_dump(r.out)
+    i = int(st.get("i", "0") or 0)
+    bad = recs[i - 1] if 1 <= i <= len(recs) else {}
+    w32 = lambda w: w[0] + 65536 * w[1]
+    rp = ctx.path(tag + "_rejected.ndjson")
+    vlib.write_ndjson(rp, [x for x in recs if x["row"] == bad.get("row")])
+    if bad.get("k") == "row":
+        what = (f"prime table row {bad['row']}: prime={w32(bad['p'])} rcp={hex(w32(bad['rcp']))} shift={bad['sh']} is not an exact "
+                f"reciprocal for 32-bit hash codes (not the round-up of 2^shift/prime, or too coarse) / not what _rehash installs")
+    else:
+        h, p, g = w32(bad.get("h", [0, 0])), w32(bad.get("p", [1, 0])), w32(bad.get("got", [0, 0]))
+        what = f"_calc_mod({h}) with {p} buckets (row {bad.get('row')}) returned {g}, expected {h % p}" + (" - index outside the bucket array" if g >= p else "")
+    ctx.violation("hashmod: " + what, rp)
+    return len(recs)
+
+
 def run(ctx):
     q = ctx.quick
     bdir = ctx.build("asan", "adt")
     ctx.build("plain", "adt")
+
+    # ---- 0. hash-table arithmetic, pointwise: every row of the prime table x adversarial hash codes ---------------
+    hm_pool = ThreadPoolExecutor(max_workers=1)          # runs beside the model checking / harness runs below
+    hm_future = hm_pool.submit(hashmod_leg, ctx, bdir, 4000000 if q else 34000000)
 
     # ---- 1. abstract types: model checking + behaviour export -------------------------------------------------
     params = {"tree": (6, 5, 5000), "list": (4, 4, 4000), "vector": (4, 0, 1500), "bitset": (3, 0, 1500)} if q else \
@@ -190,8 +239,8 @@ def run(ctx):
     sp = ctx.path("scripts.ndjson")
     vlib.write_ndjson(sp, scripts)
     fp = ctx.path("scenarios.ndjson")
-    vlib.write_ndjson(fp, fixed_scripts())
-    ctx.log(f"{len(scripts)} exported scripts + {len(fixed_scripts())} hand-written scenarios")
+    vlib.write_ndjson(fp, fixed_scripts(q))
+    ctx.log(f"{len(scripts)} exported scripts + {len(fixed_scripts(q))} hand-written scenarios")
 
     # ---- 2./3. execute on the real code -------------------------------------------------------------------------
     runs = []          # (tag, prefix)
@@ -244,6 +293,8 @@ def run(ctx):
             p = ctx.path(f"in_{comp}_{j}.ndjson")
             vlib.write_ndjson(p, [r for e in part for r in e])
             tasks.append((comp, mod, f"{comp}_{j}", p, part))
+    hm_future.result()
+    hm_pool.shutdown()
     lock = threading.Lock()
     timing = {}
     # many short single-threaded validations run side by side: keep each JVM small (2 GC threads; the quick tier's
@@ -257,7 +308,7 @@ def run(ctx):
         import time as _t
         t0 = _t.time()
         rej = vlib.validate_executions(sub, os.path.join(SPEC, mod + ".tla"), os.path.join(SPEC, mod + ".cfg"), p,
-                                       tag=tag, timeout=1700, heap="5g", max_rejects=4)
+                                       tag=tag, timeout=1700, heap="5g", max_rejects=4 if sum(len(x[2]) for x in results) < 6 else 1)
         with lock:
             results.append((task, sub, rej))
             timing[tag] = (round(_t.time() - t0, 1), sum(len(e) for e in part))
@@ -292,7 +343,7 @@ def run(ctx):
             else:
                 hint = f" [matches finding signature {key}, not listed in KNOWN_FINDINGS.txt]" if key else ""
                 ctx.violation(what + hint, x["path"])
-    ctx.evaluations = nops
+    ctx.evaluations = nops + ctx.extra.get("hashmod_observations", 0)
     ctx.extra["operations_per_component"] = per_comp
     ctx.log("operations validated per component:", per_comp)
     ctx.assumptions += [
@@ -311,6 +362,9 @@ def run(ctx):
 def replay(ctx, path):
     path = os.path.abspath(path)
     base = os.path.basename(path)
+    if base.startswith("hashmod"):
+        hashmod_leg(ctx, ctx.build("asan", "adt"), 4000000, tag="hashmod_replay")
+        return
     comp = next((c for c in COMPS if base.startswith(c + "_") or f".{c}." in base), None)
     recs = vlib.read_ndjson(path)
     if comp is None:
